@@ -34,7 +34,7 @@ func init() {
 		},
 		Run: runC12,
 		Controls: []core.Control{
-			{Name: "listener-arm-masks-host-results", File: "internal/engine/wazevo/call_engine.go", Old: "\t\t\t\tf.Call(ctx, callerModule, s)\n\t\t\t}()\n\t\t\t// Call Listener.After.\n\t\t\tlistener.After(ctx, callerModule, def, s)", New: "\t\t\t\tf.Call(ctx, callerModule, s)\n\t\t\t}()\n\t\t\t// Call Listener.After.\n\t\t\tclearUpper32Bits(s, def.ParamTypes())\n\t\t\tlistener.After(ctx, callerModule, def, s)", Rule: "R12.8", Substr: "GoModuleFunctionWithListener"},
+			{Name: "listener-arm-masks-host-results", File: "internal/engine/wazevo/call_engine.go", Old: "\t\t\t\tf.Call(ctx, callerModule, s)\n\t\t\t}()\n\t\t\t// Call Listener.After.\n\t\t\tlistener.After(ctx, callerModule, def, s[:len(def.ResultTypes())])", New: "\t\t\t\tf.Call(ctx, callerModule, s)\n\t\t\t}()\n\t\t\t// Call Listener.After.\n\t\t\tclearUpper32Bits(s, def.ParamTypes())\n\t\t\tlistener.After(ctx, callerModule, def, s[:len(def.ResultTypes())])", Rule: "R12.8", Substr: "GoModuleFunctionWithListener"},
 			{Name: "offset-table-guarded-by-instance-flag", File: "internal/engine/interpreter/interpreter.go", Old: "\t\tif parent := frame.f.parent; parent.body != nil && len(parent.offsetsInWasmBinary) > 0 {\n\t\t\tsources = parent.source.DWARFLines.Line(parent.offsetsInWasmBinary[frame.pc])", New: "\t\tif dw := f.moduleInstance.Source.DWARFLines; dw != nil && f.parent.body != nil {\n\t\t\tsources = dw.Line(f.parent.offsetsInWasmBinary[frame.pc])", Rule: "R12.7", Substr: "source-offset"},
 			{Name: "id-without-termination-flag", File: "runtime.go", Old: "internal.AssignModuleID(binary, listeners, r.ensureTermination)", New: "internal.AssignModuleID(binary, listeners, false)", Rule: "R12.1", Substr: "call-site"},
 			{Name: "id-drops-termination-param", File: "internal/wasm/module.go", Old: "\tm.ID[0] = boolToByte(withEnsureTermination)\n\th.Write(m.ID[:1])\n", New: "\t_ = withEnsureTermination\n", Rule: "R12.1", Substr: "withEnsureTermination"},
